@@ -6,14 +6,15 @@ Property theorems about the index model `SSVerif/Model/AcmodBuf.lean` of `acmod.
 `feat_s2mfc2feat_live` and the driving loops of `decoder.c`.  The quantifiers:
 
 * `s0` — **any** decoder state left behind by earlier utterances (arbitrary contents of the cepstrum ring,
-  of the live feature window and of `feat_buf`, arbitrary `bufpos`, any `n_feat_alloc ≥ 1`), subject only to
-  the structural facts `WF0`;
+  of the live feature window and of `feat_buf`, arbitrary `bufpos`, any `n_feat_alloc ≥ 1`, **any size of the
+  cepstrum ring** — a `full_utt` utterance enlarges it for good, after which `feat_s2mfc2feat_live` clamps its
+  input and `acmod_process_mfcbuf` drains the ring in several passes), subject only to the structural facts `WF0`;
 * `ops` — **any** list of API calls while the utterance is open: `decoder_process_*` with any `no_search`
   flag and **any** list of front-end responses (the batch structure: how many cepstral frames each
   `fe_process_*` call underneath yields, including 0, and whether samples remain), `decoder_hyp` /
   `decoder_seg_iter`, `decoder_alignment` (partial result; rewinds and re-advances);
 * `tail` — whether `fe_end` has a pending frame; `post` — queries and alignment on the final result;
-* `win` — any dynamic-feature window size with `nMfc + 3·win + 1 ≤ LIVEBUFBLOCKSIZE`
+* `win` — any dynamic-feature window size with `3·win + 2 ≤ LIVEBUFBLOCKSIZE`
   (`C07_consts_ok`: true for every window size `feat_init` assigns);
 * `skip` — any data-dependent outcome of the "zero-energy" test of live CMN.
 
@@ -36,13 +37,13 @@ structure WF0 (s0 : St) : Prop where
   cur : s0.curpos < livebuf
   fbLen : s0.featBuf.length = s0.nFeatAlloc
   alloc1 : 1 ≤ s0.nFeatAlloc
-  mfcLen : s0.mfcBuf.length = nMfc
-  mfcAlloc : s0.nMfcAlloc = nMfc
+  mfcLen : s0.mfcBuf.length = s0.nMfcAlloc
+  mfcAlloc1 : 1 ≤ s0.nMfcAlloc
 
 theorem startUtt_open (win : Nat) (s0 : St) (h : WF0 s0) : Open win (startUtt s0) := by
   have ha := h.alloc1
   refine ⟨rfl, Or.inl ⟨⟨h.nofault, h.grow, h.cepLen, h.cur, h.fbLen, rfl, ?_, ?_, ?_, rfl⟩, rfl,
-    ⟨h.mfcLen, h.mfcAlloc, (by decide : (0 : Nat) < nMfc), (by decide : (0 : Nat) ≤ nMfc), rfl, ?_⟩, rfl⟩, ?_, ?_⟩
+    ⟨h.mfcLen, h.mfcAlloc1, Nat.zero_le _, rfl, ?_⟩, rfl⟩, ?_, ?_⟩
   · show 0 + 0 = 0 - win; omega
   · show 0 - win < s0.nFeatAlloc; omega
   · intro k hk; omega
@@ -53,11 +54,11 @@ theorem startUtt_open (win : Nat) (s0 : St) (h : WF0 s0) : Open win (startUtt s0
 /-- the state after `acmod_create` satisfies the structural facts -/
 theorem WF0_init (cmn0 : Nat) : WF0 (St.init cmn0) :=
   ⟨rfl, rfl, by simp [St.init], (by decide : (0 : Nat) < livebuf), by simp [St.init], (by decide : 1 ≤ nMfc),
-    by simp [St.init], rfl⟩
+    by simp [St.init], (by decide : 1 ≤ nMfc)⟩
 
 /-- the closed-utterance invariant holds for every run -/
 theorem runUtt_closed (win : Nat) (skip : Nat → Bool) (s0 : St) (ops post : List Op) (tail : Bool) (hwf : WF0 s0)
-    (hw : nMfc + 3 * win + 1 ≤ livebuf)
+    (hw : 3 * win + 2 ≤ livebuf)
     (hcmn : s0.cmnFrames + offeredOps ops + (if tail then 1 else 0) ≤ cmnWinHwm)
     (hfe : tail = true ∨ (runOps true win skip (startUtt s0) ops).nextId = 0)
     (hstream : ∀ op, op ∈ ops → op.isFull = false) (hpost : ∀ op, op ∈ post → op.isProcess = false) :
@@ -73,7 +74,7 @@ theorem runUtt_closed (win : Nat) (skip : Nat → Bool) (s0 : St) (ops post : Li
     CMN exactly once with the mean fixed at the start of the utterance — nothing else (no stale ring content,
     no dependence on the call history or on the state left by earlier utterances). -/
 theorem C07_features_canonical (win : Nat) (skip : Nat → Bool) (s0 : St) (ops post : List Op) (tail : Bool) (hwf : WF0 s0)
-    (hw : nMfc + 3 * win + 1 ≤ livebuf)
+    (hw : 3 * win + 2 ≤ livebuf)
     (hcmn : s0.cmnFrames + offeredOps ops + (if tail then 1 else 0) ≤ cmnWinHwm)
     (hfe : tail = true ∨ (runOps true win skip (startUtt s0) ops).nextId = 0)
     (hstream : ∀ op, op ∈ ops → op.isFull = false) (hpost : ∀ op, op ∈ post → op.isProcess = false) :
@@ -84,7 +85,7 @@ theorem C07_features_canonical (win : Nat) (skip : Nat → Bool) (s0 : St) (ops 
 /-- **frames_searched_const.**  The number of search steps is `M`, the number of cepstral frames the front end
     delivered; nothing is left unsearched and `output_frame = M` in every case. -/
 theorem C07_frames_searched_const (win : Nat) (skip : Nat → Bool) (s0 : St) (ops post : List Op) (tail : Bool) (hwf : WF0 s0)
-    (hw : nMfc + 3 * win + 1 ≤ livebuf)
+    (hw : 3 * win + 2 ≤ livebuf)
     (hcmn : s0.cmnFrames + offeredOps ops + (if tail then 1 else 0) ≤ cmnWinHwm)
     (hfe : tail = true ∨ (runOps true win skip (startUtt s0) ops).nextId = 0)
     (hstream : ∀ op, op ∈ ops → op.isFull = false) (hpost : ∀ op, op ∈ post → op.isProcess = false) :
@@ -99,7 +100,7 @@ theorem C07_frames_searched_const (win : Nat) (skip : Nat → Bool) (s0 : St) (o
 /-- **chunking independence.**  Two decodes with the same number of delivered frames — any two call patterns,
     any two histories before the utterance — hand the search the same sequence of feature windows. -/
 theorem C07_chunking_independent (win : Nat) (skip skip' : Nat → Bool) (s0 s0' : St) (ops ops' post post' : List Op)
-    (tail tail' : Bool) (hwf : WF0 s0) (hwf' : WF0 s0') (hw : nMfc + 3 * win + 1 ≤ livebuf)
+    (tail tail' : Bool) (hwf : WF0 s0) (hwf' : WF0 s0') (hw : 3 * win + 2 ≤ livebuf)
     (hcmn : s0.cmnFrames + offeredOps ops + (if tail then 1 else 0) ≤ cmnWinHwm)
     (hcmn' : s0'.cmnFrames + offeredOps ops' + (if tail' then 1 else 0) ≤ cmnWinHwm)
     (hfe : tail = true ∨ (runOps true win skip (startUtt s0) ops).nextId = 0)
@@ -115,7 +116,7 @@ theorem C07_chunking_independent (win : Nat) (skip skip' : Nat → Bool) (s0 s0'
     order, the canonical feature vectors of the frames below some `p ≤ M`, and (see `alignPass_spec`) puts every
     counter back where it was. -/
 theorem C07_alignment_canonical (win : Nat) (skip : Nat → Bool) (s0 : St) (ops post : List Op) (tail : Bool) (hwf : WF0 s0)
-    (hw : nMfc + 3 * win + 1 ≤ livebuf)
+    (hw : 3 * win + 2 ≤ livebuf)
     (hcmn : s0.cmnFrames + offeredOps ops + (if tail then 1 else 0) ≤ cmnWinHwm)
     (hfe : tail = true ∨ (runOps true win skip (startUtt s0) ops).nextId = 0)
     (hstream : ∀ op, op ∈ ops → op.isFull = false) (hpost : ∀ op, op ∈ post → op.isProcess = false) :
@@ -129,11 +130,11 @@ theorem C07_alignment_canonical (win : Nat) (skip : Nat → Bool) (s0 : St) (ops
     reaches the end of `feat_buf` (so it never wraps and `acmod_rewind` is always possible); every frame of the
     cepstrum ring has been consumed; all ring indices are in range. -/
 theorem C07_ring_safe_open (win : Nat) (skip : Nat → Bool) (s0 : St) (ops : List Op) (hwf : WF0 s0)
-    (hw : nMfc + 2 * win + 1 ≤ livebuf) (hcmn : s0.cmnFrames + offeredOps ops ≤ cmnWinHwm)
+    (hw : 3 * win + 1 ≤ livebuf) (hcmn : s0.cmnFrames + offeredOps ops ≤ cmnWinHwm)
     (hstream : ∀ op, op ∈ ops → op.isFull = false) :
     let s := runOps true win skip (startUtt s0) ops
     s.fault = none ∧ s.featOutidx + s.nFeatFrame < s.nFeatAlloc ∧ s.featBuf.length = s.nFeatAlloc ∧
-      s.featOutidx = s.outputFrame ∧ s.nMfcFrame = 0 ∧ s.mfcOutidx < nMfc ∧ s.mfcBuf.length = nMfc ∧
+      s.featOutidx = s.outputFrame ∧ s.nMfcFrame = 0 ∧ s.mfcOutidx < s.nMfcAlloc ∧ s.mfcBuf.length = s.nMfcAlloc ∧
       s.curpos < livebuf ∧ s.cepbuf.length = livebuf ∧ s.growFeat = true ∧
       (s.state = .started ∨ s.state = .processing) := by
   intro s
@@ -147,7 +148,7 @@ theorem C07_ring_safe_open (win : Nat) (skip : Nat → Bool) (s0 : St) (ops : Li
 
 /-- **ring_safe, after `decoder_end_utt`** and any queries on the final result. -/
 theorem C07_ring_safe (win : Nat) (skip : Nat → Bool) (s0 : St) (ops post : List Op) (tail : Bool) (hwf : WF0 s0)
-    (hw : nMfc + 3 * win + 1 ≤ livebuf)
+    (hw : 3 * win + 2 ≤ livebuf)
     (hcmn : s0.cmnFrames + offeredOps ops + (if tail then 1 else 0) ≤ cmnWinHwm)
     (hfe : tail = true ∨ (runOps true win skip (startUtt s0) ops).nextId = 0)
     (hstream : ∀ op, op ∈ ops → op.isFull = false) (hpost : ∀ op, op ∈ post → op.isProcess = false) :
@@ -255,7 +256,7 @@ theorem C07_full_features_canonical (win : Nat) (skip : Nat → Bool) (s0 : St) 
 /-- **streaming and batch hand the search the same windows** (same frame count): the two regimes differ only in the
     normalisation the opaque per-frame CMN step applies, not in which frames enter which window -/
 theorem C07_full_equals_streaming_windows (win : Nat) (skip skip' : Nat → Bool) (s0 s0' : St) (ops post pre mid post' : List Op)
-    (tail ns : Bool) (r : FullResp) (hwf : WF0 s0) (hwf' : WF0F s0') (hw : nMfc + 3 * win + 1 ≤ livebuf)
+    (tail ns : Bool) (r : FullResp) (hwf : WF0 s0) (hwf' : WF0F s0') (hw : 3 * win + 2 ≤ livebuf)
     (hcmn : s0.cmnFrames + offeredOps ops + (if tail then 1 else 0) ≤ cmnWinHwm)
     (hfe : tail = true ∨ (runOps true win skip (startUtt s0) ops).nextId = 0)
     (hstream : ∀ op, op ∈ ops → op.isFull = false) (hpost : ∀ op, op ∈ post → op.isProcess = false)
@@ -270,7 +271,7 @@ theorem C07_full_equals_streaming_windows (win : Nat) (skip skip' : Nat → Bool
 
 /-- the side condition on the window size holds for every value `feat_init` assigns, and the feature buffer grows
     by default (regenerated constants; re-checked by `lake build` whenever they change) -/
-theorem C07_consts_ok : (∀ w, w ∈ featWindows → nMfc + 3 * w + 1 ≤ livebuf) ∧ growDefault = true ∧ cmnWin ≤ cmnWinHwm := by
+theorem C07_consts_ok : (∀ w, w ∈ featWindows → 3 * w + 2 ≤ livebuf) ∧ growDefault = true ∧ cmnWin ≤ cmnWinHwm := by
   decide
 
 /-! ## non-vacuity: concrete runs of the model -/
@@ -292,12 +293,24 @@ example : ((runUtt true 3 (fun _ => false) (St.init 500) exOps true [.align (som
     some ([5, 6, 7, 8, 8, 8, 8].map fun i => some ⟨i, 1, false⟩) := by decide +kernel
 
 /-- the hypotheses of the theorems are met by that run -/
-example : WF0 (St.init 500) ∧ nMfc + 3 * 3 + 1 ≤ livebuf ∧
+example : WF0 (St.init 500) ∧ 3 * 3 + 2 ≤ livebuf ∧
     (St.init 500).cmnFrames + offeredOps exOps + (if true then 1 else 0) ≤ cmnWinHwm := ⟨WF0_init 500, by decide, by decide⟩
 
 /-- an utterance shorter than one analysis window: no frame before the end, one tail frame (STARTED → ENDED) -/
 example : (runUtt true 3 (fun _ => false) (St.init 500) [.process false [⟨0, false⟩]] true []).searched =
     [(0, some ((List.replicate 7 0).map fun i => some ⟨i, 1, false⟩))] := by decide +kernel
+
+/-- a decoder whose cepstrum ring an earlier batch utterance enlarged to 300 frames: one call delivers 260 frames at
+    once — more than the live buffer takes per pass (clamp, drain loop) — after a first call of 5 frames (the queue
+    wraps); 266 canonical windows all the same -/
+def bigRing : St := { St.init 500 with mfcBuf := List.replicate 300 none, nMfcAlloc := 300 }
+
+example : (runUtt true 3 (fun _ => false) bigRing [.process false [⟨5, false⟩], .process false [⟨260, false⟩]] true []).searched.length = 266 ∧
+    (runUtt true 3 (fun _ => false) bigRing [.process false [⟨5, false⟩], .process false [⟨260, false⟩]] true []).fault = none := by
+  decide +kernel
+
+example : ((runUtt true 3 (fun _ => false) bigRing [.process false [⟨5, false⟩], .process false [⟨260, false⟩]] true []).searched.getD 257 (0, none)).2 =
+    some ([254, 255, 256, 257, 258, 259, 260].map fun i => some ⟨i, 1, false⟩) := by decide +kernel
 
 /-- the batch regime on the same 9 frames (8 from `fe_process`, one from `fe_end`), buffered, with queries -/
 example : (runUttFull 3 (fun _ => false) (St.init 500) [.query] true ⟨9, 8, false, true⟩ [.align (some 4)] [.align (some 9)]).searched =
